@@ -15,7 +15,11 @@ the end the complete node table (level, permanent index), the cache content, eve
 array.  Getter values are terms of the model; equal terms must have bit-identical implementation values.
 
 Failing-input search (S), independent of the model: every observation of the same (specification, getter) - in any
-history of this process, and on fresh objects in fresh subprocesses with other PYTHONHASHSEEDs - must be bit-identical;
+history of this process, and in fresh subprocesses with other PYTHONHASHSEEDs that run DIFFERENT whole-process histories
+(ordinary flow / generator disturbed before every getter / disturbed between construction and the first getter, approximate
+getters first / all objects first, getters interleaved) - must be bit-identical; when two fresh processes disagree the replay
+is the PAIR of (shrunk) histories, each to be run in its own interpreter; the harness observes object state passively
+(vars(), never through properties) so that it cannot fill a lazily computed cache itself;
 every polytope grid must be the exact prefix of larger grids of the same algorithm (sweep over all N to the bound
 against the next complete levels); exceptions are allowed only where the specification is invalid; a non-terminating
 op is a failure.  Failing histories are shrunk (greedy op removal) before they are written as the replay.
@@ -180,14 +184,23 @@ def call_getter(g, name):
 # ------------------------------------------------------------------------------------------------------------------
 # executing a history on the implementation
 # ------------------------------------------------------------------------------------------------------------------
+def passive(obj, name):
+    """read an instance attribute WITHOUT running any code of the object (no property, no __getattr__): the observation
+    must not change what the implementation computes later (lazily filled caches)"""
+    try:
+        return vars(obj).get(name)
+    except TypeError:
+        return None
+
+
 def vor_summary(g):
-    sv = g.get_spherical_voronoi()
+    sv = passive(g, "spherical_voronoi")
     kind = {"RotobjVoronoi": "rot3", "HalfRotobjVoronoi": "half4", "MikroVoronoi": "mikro"}.get(type(sv).__name__, type(sv).__name__)
-    add = getattr(sv, "additional_points", None) if kind != "mikro" else None
-    full = getattr(sv, "full_voronoi", None) if kind == "half4" else None
-    addf = getattr(full, "additional_points", None) if full is not None else None
+    add = passive(sv, "additional_points") if kind != "mikro" else None
+    full = passive(sv, "full_voronoi") if kind == "half4" else None
+    addf = passive(full, "additional_points") if full is not None else None
     return [g.gen_algorithm, int(g.N), int(g.dimensions), kind, 0 if add is None else len(add), 0 if addf is None else len(addf),
-            int(sv.N_points) if kind == "mikro" else 0]
+            int(passive(sv, "N_points") or 0) if kind == "mikro" else 0]
 
 
 def poly_summary(P):
@@ -238,7 +251,7 @@ class Impl:
             return {"out": hb(v), "arr": v}
         raise core.HarnessError(f"unknown op {op}")
 
-    def step(self, op):
+    def step(self, op, observe=True):
         try:
             with core.quiet(), time_limit(self.op_limit):
                 res = self._do(op)
@@ -248,6 +261,8 @@ class Impl:
             raise
         except Exception as e:
             res = {"err": core.errname(e)}
+        if not observe:
+            return {"res": res}
         return {"res": res, "rng": rng_hash(), "polys": [poly_summary(P) for P in self.polys],
                 "grids": [vor_summary(g) for g in self.grids]}
 
@@ -257,11 +272,11 @@ class Impl:
             polys.append(poly_dump(P))
         grids = []
         for g in self.grids:
-            sv = g.get_spherical_voronoi()
+            sv = passive(g, "spherical_voronoi")
             kind = type(sv).__name__
-            add = getattr(sv, "additional_points", None) if kind != "MikroVoronoi" else None
-            full = getattr(sv, "full_voronoi", None) if kind == "HalfRotobjVoronoi" else None
-            addf = getattr(full, "additional_points", None) if full is not None else None
+            add = passive(sv, "additional_points") if kind != "MikroVoronoi" else None
+            full = passive(sv, "full_voronoi") if kind == "HalfRotobjVoronoi" else None
+            addf = passive(full, "additional_points") if full is not None else None
             grids.append({"grid": np.array(g.grid, dtype=np.float64),
                           "add": None if add is None else np.array(add, dtype=np.float64),
                           "addFull": None if addf is None else np.array(addf, dtype=np.float64),
@@ -724,90 +739,168 @@ def poly_sub(t, N, proj):
     return f"{t}({N},{'proj' if proj else 'raw'})"
 
 
-def answer_queries(qs, salt, op_limit=600):
-    """runs in the reference subprocess (and in --replay in-process): every specification on a FRESH object"""
-    out = {}
-    for qi, q in enumerate(qs):
+APPROX_FIRST = ("volumesApprox", "hulls", "volumes")
+
+
+def ref_history(qs, policy, salt):
+    """One whole-process history for a fresh interpreter, covering the specifications `qs`.  The policies differ in what
+    happens between a construction and the first (approximate) getter of the process - on correct code this is
+    irrelevant, every (specification, getter) value must be the same in every process:
+      0  ordinary flow: construct, read at once
+      1  generator reseeded + advanced before every getter; getters in reverse order
+      2  generator disturbed between construction and the first getter only; approximate getters first; 4-D before 3-D
+      3  all objects constructed first, then the getters of all objects interleaved in a shuffled order"""
+    import random
+    rnd = random.Random(f"C08-ref-{salt}-{policy}")
+    ops = []
+    ng = [0]
+    npoly = [0]
+
+    def perturb():
+        ops.append({"t": "reseed", "s": rnd.randrange(2 ** 32)})
+        ops.append({"t": "draw", "k": rnd.choice([1, 7, 100, 9000])})
+
+    def new_grid(q):
+        ops.append({"t": "grid", "alg": q["alg"], "N": q["N"]})
+        if q["alg"] == "fulldiv" and q["N"] not in FULLDIV:
+            return None
+        ng[0] += 1
+        return ng[0] - 1
+
+    gq = [q for q in qs if q["q"] == "grid"]
+    pq = [q for q in qs if q["q"] == "poly"]
+    gq.sort(key=lambda q: (DIM[q["alg"]] == (3 if policy in (2, 3) else 4), q["alg"], q["N"]))
+    pending = []
+    for q in gq:
+        getters = sorted(q["getters"], key=lambda g: (g == "hulls", g))
+        if policy == 1:
+            getters = getters[::-1]
+        if policy == 2:
+            getters = sorted(getters, key=lambda g: (g not in APPROX_FIRST, g == "hulls", g))
+        if not getters:
+            new_grid(q)
+            continue
+        h = None
+        for k, g in enumerate(getters):
+            if h is None or (DIM[q["alg"]] == 3 and k):      # 3-D is cheap: a fresh object for every getter
+                h = new_grid(q)
+                if h is None:
+                    break
+                first = True
+            if policy == 3:
+                pending.append({"t": "get", "h": h, "g": g})
+                continue
+            if policy == 1 or (policy == 2 and first):
+                perturb()
+            first = False
+            ops.append({"t": "get", "h": h, "g": g})
+    if policy == 3:
+        # hulls filters in place: keep it the last getter of its object, shuffle everything else
+        rnd.shuffle(pending)
+        pending.sort(key=lambda o: o["g"] == "hulls")
+        for o in pending:
+            if rnd.random() < 0.3:
+                perturb()
+            ops.append(o)
+    for q in pq:
+        for t, N, proj in q["queries"]:
+            ops.append({"t": "newPoly", "kind": q["kind"]})
+            npoly[0] += 1
+            for _ in range(q["level"]):
+                if policy in (1, 2, 3):
+                    perturb()
+                ops.append({"t": "divide", "h": npoly[0] - 1})
+            if policy == 1:
+                perturb()
+            ops.append({"t": t, "h": npoly[0] - 1, "N": N, "proj": proj})
+    return {"r0": [salt % 1000, policy], "ops": ops}
+
+
+def exec_process_history(h, op_limit):
+    """in a reference interpreter: run the history without any observation of object state; -> observations"""
+    start_state(h)
+    im = Impl(op_limit)
+    steps = []
+    timeout = False
+    for op in h["ops"]:
         if __name__ == "__main__" and os.getppid() == 1:   # the check that started this reference process is gone
             sys.exit(3)
-        np.random.seed((salt * 7919 + qi * 104729) % (2 ** 32))
-        np.random.random((salt + qi) % 5)
-        try:
-            with core.quiet(), time_limit(op_limit):
-                if q["q"] == "grid":
-                    try:
-                        g = factory_create(q["alg"], q["N"])
-                        out[obs_key(q, "create")] = hb(np.array(g.grid, dtype=np.float64))
-                    except OpTimeout:
-                        raise
-                    except Exception as e:
-                        out[obs_key(q, "create")] = "err:" + core.errname(e)
-                        continue
-                    order = sorted(q["getters"], key=lambda s: (s == "hulls", hb(s, salt)))
-                    for k, name in enumerate(order):
-                        if DIM[q["alg"]] == 3 and k:   # cheap: a fresh object for every getter
-                            g = factory_create(q["alg"], q["N"])
-                        try:
-                            kind, v = call_getter(g, name)
-                            out[obs_key(q, name)] = hb(v) if kind == "arr" else v
-                        except OpTimeout:
-                            raise
-                        except Exception as e:
-                            out[obs_key(q, name)] = "err:" + core.errname(e)
-                else:
-                    for t, N, proj in q["queries"]:
-                        P = poly_class(q["kind"])()
-                        for _ in range(q["level"]):
-                            P.divide_edges()
-                        try:
-                            r = P.get_nodes(N=N, projection=proj) if t == "nodes" else P.get_half_of_hypercube(projection=proj, N=N)
-                            out[obs_key(q, poly_sub(t, N, proj))] = hb(np.array(r, dtype=np.float64))
-                        except OpTimeout:
-                            raise
-                        except Exception as e:
-                            out[obs_key(q, poly_sub(t, N, proj))] = "err:" + core.errname(e)
-        except OpTimeout:
-            out[obs_key(q, "create" if q["q"] == "grid" else "poly")] = "err:other:Timeout"
-    return out
+        st = im.step(op, observe=False)
+        steps.append(st)
+        if st["res"].get("err") == "other:Timeout":
+            timeout = True
+            break
+    ex = {"steps": steps, "timeout": timeout}
+    return {"obs": observations(h, ex), "timeout": timeout, "nsteps": len(steps)}
 
 
-def start_refs(qs, nproc, hashseeds):
-    """split the queries over nproc fresh interpreters (each with its own PYTHONHASHSEED); returns the Popen objects"""
+def spawn_ref(h, hashseed, op_limit):
+    env = dict(os.environ)
+    env["PYTHONHASHSEED"] = str(hashseed)
+    p = subprocess.Popen([sys.executable, str(Path(__file__).resolve()), "--ref", str(op_limit)], stdin=subprocess.PIPE,
+                         stdout=subprocess.PIPE, stderr=subprocess.PIPE, env=env, text=True)
+    p.stdin.write(json.dumps(h))
+    p.stdin.close()
+    return p
+
+
+def start_refs(qs, nproc, hashseeds, op_limit, copies=2, first_policy=0):
+    """every specification goes to `copies` fresh interpreters that follow DIFFERENT policies (and have different
+    PYTHONHASHSEEDs); returns [(Popen, hashseed, history)]"""
     procs = []
-    # expensive 4-D specifications first, round-robin
     order = sorted(range(len(qs)), key=lambda i: -(qs[i].get("N", 0) if qs[i]["q"] == "grid" and DIM[qs[i]["alg"]] == 4 else 0))
+    share = [[] for _ in range(nproc)]
+    for j, i in enumerate(order):
+        for c in range(copies):
+            share[(j + c) % nproc].append(qs[i])
     for k in range(nproc):
-        mine = [qs[i] for j, i in enumerate(order) if j % nproc == k]
-        if not mine:
+        if not share[k]:
             continue
-        env = dict(os.environ)
-        env["PYTHONHASHSEED"] = str(hashseeds[k % len(hashseeds)])
-        p = subprocess.Popen([sys.executable, str(Path(__file__).resolve()), "--ref", str(k + 1)], stdin=subprocess.PIPE,
-                             stdout=subprocess.PIPE, stderr=subprocess.PIPE, env=env, text=True)
-        p.stdin.write(json.dumps(mine))
-        p.stdin.close()
-        procs.append((p, env["PYTHONHASHSEED"]))
+        h = ref_history(share[k], (k + first_policy) % 4, 1000 + 17 * k + first_policy)
+        hs = str(hashseeds[k % len(hashseeds)])
+        procs.append((spawn_ref(h, hs, op_limit), hs, h))
     return procs
 
 
+def read_ref(p, timeout):
+    try:
+        out = p.stdout.read()
+        p.wait(timeout=max(1, timeout))
+    except subprocess.TimeoutExpired:
+        p.kill()
+        raise core.HarnessError("reference subprocess timed out")
+    if p.returncode != 0:
+        raise core.HarnessError(f"reference subprocess failed: {p.stderr.read()[-1500:]}")
+    line = [l for l in out.split("\n") if l.startswith("REF ")]
+    if not line:
+        raise core.HarnessError(f"reference subprocess gave no result: {out[-300:]}")
+    return json.loads(line[-1][4:])
+
+
 def join_refs(procs, timeout):
+    """-> (key -> [(value, ('ref', process number, op index))], [history of each process], [timeouts])"""
     refs = {}
     t0 = time.time()
-    for p, hs in procs:
-        try:
-            out = p.stdout.read()
-            p.wait(timeout=max(1, timeout - (time.time() - t0)))
-        except subprocess.TimeoutExpired:
-            p.kill()
-            raise core.HarnessError("reference subprocess timed out")
-        if p.returncode != 0:
-            raise core.HarnessError(f"reference subprocess failed: {p.stderr.read()[-1500:]}")
-        line = [l for l in out.split("\n") if l.startswith("REF ")]
-        if not line:
-            raise core.HarnessError(f"reference subprocess gave no result: {out[-300:]}")
-        for k, v in json.loads(line[-1][4:]).items():
-            refs.setdefault(k, []).append((v, f"fresh process PYTHONHASHSEED={hs}"))
-    return refs
+    hists, timeouts = [], []
+    for n, (p, hs, h) in enumerate(procs):
+        r = read_ref(p, timeout - (time.time() - t0))
+        hists.append({"r0": h["r0"], "ops": h["ops"], "PYTHONHASHSEED": hs})
+        if r["timeout"]:
+            timeouts.append((n, r["nsteps"] - 1))
+        for key, val, i in r["obs"]:
+            refs.setdefault(key, []).append((val, ("ref", n, i)))
+    return refs, hists, timeouts
+
+
+def run_fresh(histories, op_limit, hashseeds=(4242, 77, 5, 6), timeout=3000):
+    """each history in its own fresh interpreter (in parallel); -> list of observation lists"""
+    ps = [spawn_ref(h, hashseeds[i % len(hashseeds)], op_limit) for i, h in enumerate(histories)]
+    try:
+        return [read_ref(p, timeout) for p in ps]
+    finally:
+        for p in ps:
+            if p.poll() is None:
+                p.kill()
 
 
 # ------------------------------------------------------------------------------------------------------------------
@@ -894,10 +987,83 @@ def oracle_errors(ctx, h, ex):
             grids.append((op["alg"], op["N"]))
 
 
-def oracle_histories(ctx, hist, execs, refs, minimise=True):
+def minimal_candidate(h, focus):
+    """the construction of the object that op `focus` reads (with its subdivisions), every reseed / draw before it, and
+    op `focus` itself; None when op `focus` reads nothing"""
+    ops = h["ops"]
+    op = ops[focus]
+    if op["t"] in ("get", "regen"):
+        made = lambda o: o["t"] == "grid" and not (o["alg"] == "fulldiv" and o["N"] not in FULLDIV)
+    elif op["t"] in ("nodes", "half"):
+        made = lambda o: o["t"] == "newPoly"
+    else:
+        return None
+    cnt, ci = -1, None
+    for i, o in enumerate(ops[:focus]):
+        if made(o):
+            cnt += 1
+            if cnt == op["h"]:
+                ci = i
+                break
+    if ci is None:
+        return None
+    new = []
+    seg = []                      # generator ops since the last kept object op; a reseed makes the earlier ones irrelevant
+
+    def flush():
+        last = max([j for j, o in enumerate(seg) if o["t"] == "reseed"], default=0)
+        new.extend(seg[last:])
+        seg.clear()
+
+    for i, o in enumerate(ops[:focus + 1]):
+        if i == ci:
+            flush()
+            new.append(dict(o))
+        elif i == focus or (o["t"] == "divide" and op["t"] in ("nodes", "half") and o["h"] == op["h"] and i > ci):
+            flush()
+            new.append(dict(o, h=0))
+        elif o["t"] in ("reseed", "draw"):
+            seg.append(dict(o))
+    return {"r0": h["r0"], "ops": new}, len(new) - 1
+
+
+def value_in(obs, key, focus):
+    for k, v, i in obs:
+        if i == focus and k == key:
+            return v
+    return None
+
+
+def pair_case(key, ha, fa, hb_, fb, where_a="fresh process", where_b="fresh process"):
+    return {"kind": "pair", "key": key,
+            "a": {"where": where_a, "r0": ha["r0"], "ops": ha["ops"][:fa + 1], "focus": fa},
+            "b": {"where": where_b, "r0": hb_["r0"], "ops": hb_["ops"][:fb + 1], "focus": fb}}
+
+
+def shrink_pair(case, op_limit):
+    """try the minimal candidates of both sides in two fresh interpreters; keep them if the values still differ"""
+    ca = minimal_candidate(case["a"], case["a"]["focus"])
+    cb = minimal_candidate(case["b"], case["b"]["focus"])
+    if ca is None or cb is None:
+        return case, None, None
+    try:
+        ra, rb = run_fresh([ca[0], cb[0]], op_limit, timeout=120)
+    except core.HarnessError:
+        return case, None, None
+    va, vb = value_in(ra["obs"], case["key"], ca[1]), value_in(rb["obs"], case["key"], cb[1])
+    if va is None or vb is None or va == vb:
+        return case, None, None
+    return pair_case(case["key"], ca[0], ca[1], cb[0], cb[1]), va, vb
+
+
+def oracle_histories(ctx, hist, execs, refs, ref_hists=(), ref_timeouts=(), minimise=True):
     table = {}
     for h, ex in zip(hist, execs):
         oracle_errors(ctx, h, ex)
+    for n, i in ref_timeouts:
+        h = ref_hists[n]
+        ctx.fail("C08:timeout", f"op {i} ({h['ops'][i]}) did not return within the time limit in a fresh process",
+                 case_of({"r0": h["r0"], "ops": h["ops"][:i + 1]}, i))
     for hi, (h, ex) in enumerate(zip(hist, execs)):
         if ex["timeout"]:
             i = len(ex["steps"]) - 1
@@ -907,35 +1073,58 @@ def oracle_histories(ctx, hist, execs, refs, minimise=True):
             table.setdefault(key, []).append((val, ("history", hi, i)))
     for key, lst in refs.items():
         for val, src in lst:
-            table.setdefault(key, []).append((val, ("ref", src)))
+            table.setdefault(key, []).append((val, src))
     reported = 0
+    pairs = 0
     for key in sorted(table):
         vals = table[key]
         distinct = sorted({v for v, _ in vals})
         ctx.nt(("spec", key)) if len(vals) > 1 else None
         if len(distinct) <= 1:
             continue
-        # expected = the value of a fresh process if there is one, else the most frequent
-        refv = [v for v, s in vals if s[0] == "ref"]
-        expected = refv[0] if refv else max(distinct, key=lambda d: sum(1 for v, _ in vals if v == d))
-        bad = [(v, s) for v, s in vals if v != expected and s[0] == "history"]
-        if not bad:   # the fresh processes disagree among themselves or with every history
-            good = [(v, s) for v, s in vals if s[0] == "history"]
-            src = good[0][1] if good else None
-            case = case_of(hist[src[1]], src[2]) if src else {"kind": "spec", "key": key}
-            ctx.fail(f"C08:{key}", f"{key}: fresh processes and this process disagree bitwise", case,
-                     expected={"fresh_process": refv}, observed=sorted({v for v, _ in good}))
-            reported += 1
+        in_refs = [(v, s) for v, s in vals if s[0] == "ref"]
+        in_hist = [(v, s) for v, s in vals if s[0] == "history"]
+        if len({v for v, _ in in_refs}) > 1:
+            # two fresh processes that ran different histories disagree: the replay is the pair of histories
+            va, sa = in_refs[0]
+            vb, sb = next((v, s) for v, s in in_refs if v != va)
+            case = pair_case(key, ref_hists[sa[1]], sa[2], ref_hists[sb[1]], sb[2])
+            if minimise and pairs < 2:
+                case, wa, wb = shrink_pair(case, ctx.op_limit)
+                if wa is not None:
+                    va, vb = wa, wb
+            pairs += 1
+            ctx.fail(f"C08:{key}", f"{key}: two fresh processes that ran different histories return different bits "
+                     f"(op {case['a']['focus']} of history a, op {case['b']['focus']} of history b)", case, expected=va, observed=vb)
             continue
+        # every fresh process agrees (or there is none): expected = their value, else the most frequent
+        expected = in_refs[0][0] if in_refs else max(distinct, key=lambda d: sum(1 for v, _ in vals if v == d))
+        bad = [(v, s) for v, s in in_hist if v != expected]
         v, s = bad[0]
         h = hist[s[1]]
         case = case_of(h, s[2])
         if minimise and reported < 3:
             case = shrink(h, s[2], key, expected, ctx.op_limit)
-        ctx.fail(f"C08:{key}", f"{key}: value depends on the history (op {case.get('focus')} of the replay differs bitwise from "
-                 f"{'a fresh process' if refv else 'other histories'})", case, expected=expected, observed=v)
+            if in_refs and value_of_case(case, key, ctx.op_limit) == expected:
+                # not reproducible by this history alone (depends on what this process did before): give the pair
+                sa = in_refs[0][1]
+                case = pair_case(key, ref_hists[sa[1]], sa[2], h, s[2], where_b="this process, after other histories")
+        ctx.fail(f"C08:{key}", f"{key}: value depends on the history (differs bitwise from "
+                 f"{'a fresh process' if in_refs else 'other histories'})", case, expected=expected, observed=v)
         reported += 1
     return table
+
+
+def value_of_case(case, key, op_limit):
+    """value of the focused op when the (history) case is executed now, in this process"""
+    if case.get("kind") != "history" or "focus" not in case:
+        return None
+    h = {"r0": case["r0"], "ops": case["ops"]}
+    with rng_guard():
+        ex = exec_history(h, op_limit)
+    if ex["timeout"]:
+        return None
+    return value_in(observations(h, ex), key, case["focus"])
 
 
 def drop_op(h, focus, j, created):
@@ -1142,9 +1331,10 @@ def run(ctx):
         ctx.sample(case_of(s))
     # fresh-process references run while this process executes the histories
     qs = queries_of(hist)
+    # every specification goes to two (thorough: three) fresh interpreters that run different whole-process histories
     nproc = 4 if ctx.quick else 6
-    procs = start_refs(qs, nproc, [1, 2, 3, 4242, 5, 6])
-    extra = start_refs(qs, 3, [11, 12, 13]) if not ctx.quick else []   # thorough: every specification in two fresh processes
+    procs = start_refs(qs, nproc, [1, 2, 3, 4242, 5, 6], ctx.op_limit, copies=2)
+    extra = start_refs(qs, 3, [11, 12, 13], ctx.op_limit, copies=1, first_policy=2) if not ctx.quick else []
     try:
         try:
             tables = Tables(lm, ctx.op_limit)
@@ -1163,7 +1353,7 @@ def run(ctx):
             if mp_pool is not None:
                 mp_pool.terminate()
     finally:
-        for p, _ in procs + extra:
+        for p, _, _ in procs + extra:
             if p.poll() is None:
                 p.kill()
     for c in corpus:
@@ -1225,10 +1415,13 @@ def _run_histories_then_refs(ctx, tables, hist, procs, mp_pool):
         if reads and makes:
             ctx.nt(json.dumps(h["ops"], sort_keys=True))
     _dbg(ctx, 'compared')
-    refs = join_refs(procs, timeout=600 if ctx.quick else 3000)
+    refs, ref_hists, ref_timeouts = join_refs(procs, timeout=600 if ctx.quick else 3000)
     _dbg(ctx, 'refs joined')
     ctx.branch("fresh_process_observations", sum(len(v) for v in refs.values()))
-    oracle_histories(ctx, hist, execs, refs)
+    ctx.branch("fresh_process_histories", len(ref_hists))
+    for h in ref_hists:
+        ctx.branch("fresh_process_ops", len(h["ops"]))
+    oracle_histories(ctx, hist, execs, refs, ref_hists, ref_timeouts)
     return created
 
 
@@ -1252,18 +1445,32 @@ def replay(ctx, cases):
         return
     if hist:
         qs = queries_of(hist)
-        procs = start_refs(qs, 1, [4242])
-        execs = [exec_history(h, ctx.op_limit) for h in hist]
-        mouts = run_model(ctx, tables, hist)
-        terms, rngcache = {}, {}
-        for h, ex, mo in zip(hist, execs, mouts):
+        procs = start_refs(qs, 2, [4242, 77], ctx.op_limit, copies=2)
+        try:
+            execs = [exec_history(h, ctx.op_limit) for h in hist]
+            mouts = run_model(ctx, tables, hist)
+            terms, rngcache = {}, {}
+            for h, ex, mo in zip(hist, execs, mouts):
+                ctx.count()
+                compare_history(ctx, tables, h, ex, mo, terms, rngcache)
+            refs, ref_hists, ref_timeouts = join_refs(procs, timeout=3000)
+        finally:
+            for p, _, _ in procs:
+                if p.poll() is None:
+                    p.kill()
+        oracle_histories(ctx, hist, execs, refs, ref_hists, ref_timeouts, minimise=False)
+    for c in cases:
+        if c.get("kind") == "pair":
+            # the two histories, each in its own fresh interpreter
             ctx.count()
-            compare_history(ctx, tables, h, ex, mo, terms, rngcache)
-        refs = join_refs(procs, timeout=3000)
-        with rng_guard():
-            for k, v in answer_queries(qs, 5).items():
-                refs.setdefault(k, []).append((v, "fresh object in this process"))
-        oracle_histories(ctx, hist, execs, refs, minimise=False)
+            ha = {"r0": c["a"]["r0"], "ops": c["a"]["ops"]}
+            hb2 = {"r0": c["b"]["r0"], "ops": c["b"]["ops"]}
+            ra, rb = run_fresh([ha, hb2], ctx.op_limit)
+            va, vb = value_in(ra["obs"], c["key"], c["a"]["focus"]), value_in(rb["obs"], c["key"], c["b"]["focus"])
+            print(f"pair replay {c['key']}: history a -> {va}, history b -> {vb}")
+            if va != vb:
+                ctx.fail(f"C08:{c['key']}", f"{c['key']}: two fresh processes that ran different histories return different bits", c,
+                         expected=va, observed=vb)
     for c in cases:
         if c.get("kind") == "prefix":
             ctx.count()
@@ -1280,11 +1487,10 @@ def replay(ctx, cases):
 
 if __name__ == "__main__":
     if len(sys.argv) >= 3 and sys.argv[1] == "--ref":
-        salt = int(sys.argv[2])
         with core.quiet():
             import molgri  # noqa: F401
         if os.environ.get("MOLGRI_REPO"):
             assert str(Path(molgri.__file__).resolve()).startswith(str(Path(os.environ["MOLGRI_REPO"]).resolve())), molgri.__file__
-        qs = json.loads(sys.stdin.read())
-        res = answer_queries(qs, salt)
+        hist_in = json.loads(sys.stdin.read())
+        res = exec_process_history({"r0": hist_in["r0"], "ops": hist_in["ops"]}, float(sys.argv[2]))
         print("REF " + json.dumps(res))
